@@ -26,7 +26,7 @@ ASSUMPTIONS = [
     "fitted estimators are third-party; only what black_it passes to and takes from them is judged",
 ]
 REQUIRED_COUNTERS = {f"nomod_{k}": 10 for k in G.SAMPLER_KINDS}
-REQUIRED_COUNTERS.update({"stub_calls": 100, "real_surrogate_calls": 30, "bestbatch_proposals": 200, "extreme_histories": 50, "boundary_ties": 20})
+REQUIRED_COUNTERS.update({"second_history_same_length": 40, "stub_calls": 100, "real_surrogate_calls": 30, "bestbatch_proposals": 200, "extreme_histories": 50, "boundary_ties": 20})
 SHARDS = {"quick": 16, "thorough": 16}
 SHARD_WATCHDOG = {"quick": 900, "thorough": 5400}
 
@@ -178,13 +178,17 @@ def run_case(desc, ctx):
                 seen["pool"].append(None if res is None else np.array(res, copy=True))
 
             def post_batch(tok, res, err, self, batch_size, *a, **k):
-                seen["batches"].append((int(batch_size), None if res is None else np.array(res, copy=True), len(seen["predict"])))
+                seen["batches"].append((int(batch_size), None if res is None else np.array(res, copy=True), len(seen["predict"]), len(seen["fit"]), len(seen["pool"])))
 
             try:
                 with Wrap(cls, "fit", post=post_fit), Wrap(cls, "predict", post=post_predict), \
                         Wrap(MLSurrogateSampler, "sample_candidates", post=post_pool), Wrap(MLSurrogateSampler, "sample_batch", post=post_batch), \
                         quiet(), G.time_limit(90):
                     final = sampler.sample(space, pts, losses)
+                    n_first = len(seen["batches"])
+                    # the same object again, on a different history of the same length
+                    pts_b, losses_b, _ = G.gen_history(rng, space, n)
+                    final_b = sampler.sample(space, pts_b, losses_b)
             except G.Timeout:
                 cnt("rejected_timeout")
                 continue
@@ -193,15 +197,22 @@ def run_case(desc, ctx):
                 continue
             out["evals"] += 1
             cnt("stub_calls" if kind == "stub" else "real_surrogate_calls", len(seen["batches"]))
-            if not seen["batches"] or len(seen["fit"]) != len(seen["batches"]) or len(seen["predict"]) < len(seen["batches"]):
+            if not seen["batches"] or not seen["fit"] or len(seen["predict"]) < len(seen["batches"]):
                 bad(f"{smp['kind']}: sample_batch ran {len(seen['batches'])} times but fit {len(seen['fit'])} / predict {len(seen['predict'])} times", w)
                 continue
-            for bi, (req, res, npred) in enumerate(seen["batches"]):
-                X, y = seen["fit"][bi]
-                if not (np.array_equal(X, pts) and np.array_equal(y, losses, equal_nan=True)):
-                    bad(f"{smp['kind']}: fit() was given something else than the history (X {X.shape} vs {pts.shape})", w)
+            cnt("second_history_same_length")
+            for bi, (req, res, npred, nfit, npool) in enumerate(seen["batches"]):
+                hp, hl = (pts, losses) if bi < n_first else (pts_b, losses_b)
+                if nfit == 0 or npool == 0:
+                    bad(f"{smp['kind']}: a batch was selected before any fit / candidate pool existed", w)
                     break
-                pool = seen["pool"][bi]
+                # the model that decided this batch is the one fitted last: it must have been trained on exactly the history given to this call
+                X, y = seen["fit"][nfit - 1]
+                if not (np.array_equal(X, hp) and np.array_equal(y, hl, equal_nan=True)):
+                    bad(f"{smp['kind']}: the surrogate that selected batch {bi} was trained on something else than the history given to that call "
+                        f"(X {X.shape} vs {hp.shape}{', second call on the same object with another history of equal length' if bi >= n_first else ''})", w)
+                    break
+                pool = seen["pool"][npool - 1]
                 # the predict call that decided this batch is the last one made before sample_batch returned
                 Xp, pred = seen["predict"][npred - 1]
                 if pool is None or len(pool) != pool_n:
